@@ -1,3 +1,622 @@
-pub(crate) fn run(_args: &engine::Args) -> i32 {
-    engine::machinery_failure("not implemented")
+//! C26 - database files stay inside their owner's directory and never collide;
+//! names that cannot satisfy this are rejected.
+//!
+//! Enumerated: NAMES (32 path-like / special strings) x file operations, from a
+//! base world in which usr1 already owns databases `x` and `y` (each with
+//! content, an audit log and a backup) and usr2 owns an `x` of its own:
+//!   group A  one request that creates a database named N:
+//!            add (mapped|file|memory), admin add, copy y->N, rename y->N,
+//!            admin copy, admin rename, copy by another user into their dir
+//!   group B  add N (3 kinds); exec_mut N; backup N; then one (thorough: two) of
+//!            restore, rollback, clear (4 resources), convert (2 targets),
+//!            delete, remove, optimize, exec_mut, backup, copy N->cp1, rename N->rn1, audit
+//!   group C  add N1; add N2 for name pairs (quick: 10x10, thorough: 32x32)
+//! Oracle after EVERY request, by diff of the complete file tree under the
+//! scratch directory (the data directory sits three levels inside it) and of
+//! the set of registered databases:
+//!   escape        a created/changed/deleted path lies outside the directories
+//!                 of the owners named in the request (server bookkeeping
+//!                 files agdb_server.agdb/.log are exempt)
+//!   foreign-file  a touched path belongs to the file set (main, .main recovery
+//!                 log, backups/N.bak, backups/N.log, audit/N.log) of a
+//!                 registered database the request does not name
+//!   collision     after the request two registered databases have
+//!                 intersecting file sets, or a database's main/recovery file
+//!                 is the backups/ or audit/ directory, or a file set leaves
+//!                 the owner's directory
+//!   not-rejected / reject-with-effect
+//!                 the new name cannot satisfy the above (decided from the
+//!                 lexically normalised file set) and the request was not
+//!                 answered with an error, or was but left a change behind
+//! Nothing is demanded about names that can satisfy the property.
+
+use crate::vh::lab::{Base, Lab, Req, Setup, reqs_from_json, reqs_to_json};
+use crate::vh::world::{enc, tree_diff};
+use agdb::QueryBuilder;
+use agdb_api::Queries;
+use engine::{Args, DistinctCounter, Report, Tier};
+use serde_json::{Value, json};
+use std::collections::{BTreeMap, BTreeSet};
+use std::sync::atomic::{AtomicU64, Ordering};
+
+const DATA: &str = "a/b/data";
+
+/// (name as the server decodes it, send raw (not percent-encoded) in the path)
+fn names() -> Vec<(String, bool)> {
+    let long255 = "n".repeat(255);
+    let long300 = "m".repeat(300);
+    let v: Vec<(&str, bool)> = vec![
+        ("..", false),
+        ("..", true),
+        ("../escape", false),
+        ("../usr2/stolen", false),
+        ("../../outside", false),
+        ("../../../far", false),
+        ("a/b", true),
+        ("a/b", false),
+        (".x", false),
+        (".new", false),
+        ("backups", false),
+        ("audit", false),
+        ("backups/x.bak", false),
+        ("backups/x.log", false),
+        ("audit/x.log", false),
+        ("audit/../../escape2", false),
+        ("x.bak", false),
+        ("x.log", false),
+        ("x", false),
+        (".", false),
+        ("", false),
+        ("x.", false),
+        ("..x", false),
+        ("x/..", false),
+        ("x/../z", false),
+        ("./x", false),
+        ("../usr1/x", false),
+        ("my db", false),
+        ("d\u{e4}tab\u{e1}se-\u{6570}\u{636e}\u{5e93}", false),
+        ("line\nbreak", false),
+        ("plain_name-1", false),
+    ];
+    let mut out: Vec<(String, bool)> = v.into_iter().map(|(a, b)| (a.to_string(), b)).collect();
+    out.push((long255, false));
+    out.push((long300, false));
+    out
+}
+
+fn pair_names_quick() -> Vec<String> {
+    ["new", ".new", "./new", "d", "d/e", "backups", "audit/d.log", "..d", "d.", "backups/d.bak"].iter().map(|s| s.to_string()).collect()
+}
+
+// ---------------------------------------------------------------------------
+// file sets
+
+/// lexical normalisation of a path relative to the scratch root; None = leaves the root
+fn norm(path: &str) -> Option<String> {
+    let mut out: Vec<&str> = vec![];
+    for c in path.split('/') {
+        match c {
+            "" | "." => {}
+            ".." => {
+                out.pop()?;
+            }
+            c => out.push(c),
+        }
+    }
+    Some(out.join("/"))
+}
+
+/// raw paths the server derives for (owner, db): [main, recovery log, backup, backup audit, audit]
+fn raw_files(owner: &str, db: &str) -> Vec<(&'static str, String)> {
+    let main = format!("{DATA}/{owner}/{db}");
+    let pos = main.rfind('/').map(|p| p + 1).unwrap_or(0);
+    let mut wal = main.clone();
+    wal.insert(pos, '.');
+    vec![
+        ("main", main),
+        ("recovery-log", wal),
+        ("backup", format!("{DATA}/{owner}/backups/{db}.bak")),
+        ("backup-audit", format!("{DATA}/{owner}/backups/{db}.log")),
+        ("audit", format!("{DATA}/{owner}/audit/{db}.log")),
+    ]
+}
+
+/// normalised file set; an entry is None when it leaves the scratch root
+fn files(owner: &str, db: &str) -> Vec<(&'static str, Option<String>)> {
+    raw_files(owner, db).into_iter().map(|(k, p)| (k, norm(&p))).collect()
+}
+
+fn inside_owner(owner: &str, p: &Option<String>) -> bool {
+    match p {
+        Some(p) => p.starts_with(&format!("{DATA}/{owner}/")),
+        None => false,
+    }
+}
+
+fn reserved(owner: &str) -> [String; 2] {
+    [format!("{DATA}/{owner}/backups"), format!("{DATA}/{owner}/audit")]
+}
+
+/// Why (owner, name) cannot have a private file set inside the owner's directory, given the other databases.
+fn unsatisfiable(owner: &str, name: &str, others: &[(String, String)]) -> Option<&'static str> {
+    if name.is_empty() {
+        return Some("empty");
+    }
+    let f = files(owner, name);
+    for (_, p) in &f {
+        if !inside_owner(owner, p) {
+            return Some(match p {
+                None => "escape-scratch-root",
+                Some(p) if !p.starts_with(&format!("{DATA}/")) => "escape-data-dir",
+                Some(p) if p.starts_with(&format!("{DATA}/usr")) && !p.starts_with(&format!("{DATA}/{owner}")) => "escape-other-user",
+                _ => "escape-owner-dir",
+            });
+        }
+    }
+    let res = reserved(owner);
+    for (_, p) in &f {
+        let p = p.as_ref().unwrap();
+        if res.contains(p) {
+            return Some("reserved-dir-name");
+        }
+    }
+    for (o, n) in others {
+        if o == owner && n == name {
+            continue;
+        }
+        let g = files(o, n);
+        for (k1, p1) in &f {
+            for (k2, p2) in &g {
+                if p1.is_some() && p1 == p2 {
+                    return Some(match (*k1, *k2) {
+                        ("main", "main") => "alias-of-existing-db",
+                        ("main", "recovery-log") | ("recovery-log", "main") => "recovery-log-of-existing-db",
+                        ("main", _) => "backup-or-audit-file-of-existing-db",
+                        _ => "shares-file-with-existing-db",
+                    });
+                }
+            }
+        }
+    }
+    None
+}
+
+fn name_class(owner: &str, name: &str, others: &[(String, String)]) -> &'static str {
+    if let Some(u) = unsatisfiable(owner, name, others) {
+        return u;
+    }
+    if name.contains('/') {
+        "subdirectory"
+    } else if name.starts_with('.') {
+        "leading-dot"
+    } else if name.len() > 200 {
+        "long"
+    } else {
+        "plain"
+    }
+}
+
+// ---------------------------------------------------------------------------
+// steps
+
+#[derive(Clone, Debug)]
+struct Step {
+    req: Req,
+    /// databases the request names (their files may be touched)
+    subjects: Vec<(String, String)>,
+    /// the database a successful request registers under a new name, and the source it replaces (rename)
+    creates: Option<(String, String)>,
+    replaces: Option<(String, String)>,
+}
+
+impl Step {
+    fn to_json(&self) -> Value {
+        json!({"req": self.req.to_json(), "subjects": self.subjects, "creates": self.creates, "replaces": self.replaces})
+    }
+    fn from_json(v: &Value) -> Step {
+        let pair = |x: &Value| -> Option<(String, String)> { Some((x.get(0)?.as_str()?.to_string(), x.get(1)?.as_str()?.to_string())) };
+        Step {
+            req: Req::from_json(&v["req"]),
+            subjects: v["subjects"].as_array().map(|a| a.iter().filter_map(pair).collect()).unwrap_or_default(),
+            creates: pair(&v["creates"]),
+            replaces: pair(&v["replaces"]),
+        }
+    }
+}
+
+fn seg(name: &str, raw: bool) -> String {
+    if raw { name.to_string() } else { enc(name) }
+}
+
+fn write_query() -> Value {
+    serde_json::to_value(Queries(vec![QueryBuilder::insert().nodes().count(1).query().into()])).unwrap()
+}
+
+fn s(req: Req, subjects: &[(&str, &str)], creates: Option<(&str, &str)>, replaces: Option<(&str, &str)>) -> Step {
+    Step {
+        req,
+        subjects: subjects.iter().map(|(a, b)| (a.to_string(), b.to_string())).collect(),
+        creates: creates.map(|(a, b)| (a.to_string(), b.to_string())),
+        replaces: replaces.map(|(a, b)| (a.to_string(), b.to_string())),
+    }
+}
+
+fn add_step(caller: &str, owner: &str, n: &str, raw: bool, kind: &str, admin: bool) -> Step {
+    let p = if admin { "/admin/db" } else { "/db" };
+    s(Req::new(caller, "POST", &format!("{p}/{owner}/{}/add?db_type={kind}", seg(n, raw)), None, &format!("{}add-{kind}", if admin { "admin-" } else { "" })), &[(owner, n)], Some((owner, n)), None)
+}
+
+fn group_a(n: &str, raw: bool) -> Vec<Vec<Step>> {
+    let e = enc(n);
+    let mut out = vec![];
+    for kind in ["mapped", "file", "memory"] {
+        out.push(vec![add_step("usr1", "usr1", n, raw, kind, false)]);
+    }
+    out.push(vec![add_step("admin", "usr1", n, raw, "mapped", true)]);
+    // an owner whose directory does not exist yet (no backups/ and audit/ directories either),
+    // followed by an ordinary database of that owner being created and backed up
+    for kind in ["mapped", "memory"] {
+        out.push(vec![
+            add_step("usr3", "usr3", n, raw, kind, false),
+            add_step("usr3", "usr3", "ok1", false, "mapped", false),
+            s(Req::new("usr3", "POST", "/db/usr3/ok1/exec_mut", Some(write_query()), "exec_mut-other"), &[("usr3", "ok1")], None, None),
+            s(Req::new("usr3", "POST", "/db/usr3/ok1/backup", None, "backup-other"), &[("usr3", "ok1")], None, None),
+        ]);
+    }
+    if !raw {
+        out.push(vec![s(Req::new("usr1", "POST", &format!("/db/usr1/y/copy?new_db={e}"), None, "copy-to"), &[("usr1", "y"), ("usr1", n)], Some(("usr1", n)), None)]);
+        out.push(vec![s(Req::new("usr1", "POST", &format!("/db/usr1/y/rename?new_db={e}"), None, "rename-to"), &[("usr1", "y"), ("usr1", n)], Some(("usr1", n)), Some(("usr1", "y")))]);
+        out.push(vec![s(Req::new("admin", "POST", &format!("/admin/db/usr1/y/copy?new_owner=usr1&new_db={e}"), None, "admin-copy-to"), &[("usr1", "y"), ("usr1", n)], Some(("usr1", n)), None)]);
+        out.push(vec![s(Req::new("admin", "POST", &format!("/admin/db/usr1/y/rename?new_owner=usr1&new_db={e}"), None, "admin-rename-to"), &[("usr1", "y"), ("usr1", n)], Some(("usr1", n)), Some(("usr1", "y")))]);
+        out.push(vec![s(Req::new("usr2", "POST", &format!("/db/usr1/y/copy?new_db={e}"), None, "copy-to-other-owner"), &[("usr1", "y"), ("usr2", n)], Some(("usr2", n)), None)]);
+    }
+    out
+}
+
+fn ops_on(n: &str, raw: bool) -> Vec<Step> {
+    let e = seg(n, raw);
+    let me = [("usr1", n)];
+    let mut v = vec![
+        s(Req::new("usr1", "POST", &format!("/db/usr1/{e}/restore"), None, "restore"), &me, None, None),
+        s(Req::new("usr1", "POST", &format!("/db/usr1/{e}/rollback"), None, "rollback"), &me, None, None),
+    ];
+    for r in ["all", "db", "audit", "backup"] {
+        v.push(s(Req::new("usr1", "POST", &format!("/db/usr1/{e}/clear?resource={r}"), None, &format!("clear-{r}")), &me, None, None));
+    }
+    for k in ["mapped", "file", "memory"] {
+        v.push(s(Req::new("usr1", "POST", &format!("/db/usr1/{e}/convert?db_type={k}"), None, &format!("convert-{k}")), &me, None, None));
+    }
+    v.push(s(Req::new("usr1", "DELETE", &format!("/db/usr1/{e}/delete"), None, "delete"), &me, None, None));
+    v.push(s(Req::new("usr1", "DELETE", &format!("/db/usr1/{e}/remove"), None, "remove"), &me, None, None));
+    v.push(s(Req::new("usr1", "POST", &format!("/db/usr1/{e}/optimize"), None, "optimize"), &me, None, None));
+    v.push(s(Req::new("usr1", "POST", &format!("/db/usr1/{e}/exec_mut"), Some(write_query()), "exec_mut"), &me, None, None));
+    v.push(s(Req::new("usr1", "POST", &format!("/db/usr1/{e}/backup"), None, "backup"), &me, None, None));
+    v.push(s(Req::new("usr1", "GET", &format!("/db/usr1/{e}/audit"), None, "audit"), &me, None, None));
+    v.push(s(Req::new("usr1", "POST", &format!("/db/usr1/{e}/copy?new_db=cp1"), None, "copy-from"), &[("usr1", n), ("usr1", "cp1")], Some(("usr1", "cp1")), None));
+    v.push(s(Req::new("usr1", "POST", &format!("/db/usr1/{e}/rename?new_db=rn1"), None, "rename-from"), &[("usr1", n), ("usr1", "rn1")], Some(("usr1", "rn1")), Some(("usr1", n))));
+    v
+}
+
+fn group_b(n: &str, raw: bool, depth: usize) -> Vec<Vec<Step>> {
+    let mut out = vec![];
+    let ops = ops_on(n, raw);
+    for kind in ["mapped", "file", "memory"] {
+        let by_op = |op: &str| ops.iter().find(|s| s.req.op == op).cloned().unwrap_or_else(|| engine::machinery_failure("op table"));
+        let prefix = vec![add_step("usr1", "usr1", n, raw, kind, false), by_op("exec_mut"), by_op("backup")];
+        for a in &ops {
+            let mut seq = prefix.clone();
+            seq.push(a.clone());
+            out.push(seq.clone());
+            if depth >= 2 && a.req.op != "delete" && a.req.op != "remove" && a.req.op != "rename-from" {
+                for b in &ops {
+                    let mut seq2 = seq.clone();
+                    seq2.push(b.clone());
+                    out.push(seq2);
+                }
+            }
+        }
+    }
+    out
+}
+
+fn group_c(pairs: &[String]) -> Vec<Vec<Step>> {
+    let mut out = vec![];
+    for a in pairs {
+        for b in pairs {
+            out.push(vec![add_step("usr1", "usr1", a, false, "mapped", false), add_step("usr1", "usr1", b, false, "mapped", false)]);
+        }
+    }
+    out
+}
+
+// ---------------------------------------------------------------------------
+
+fn base_world() -> Base {
+    let w = write_query();
+    let mut script = vec![Setup::AddUser("usr1"), Setup::AddUser("usr2"), Setup::AddUser("usr3"), Setup::Login("usr1", "usr1"), Setup::Login("usr2", "usr2"), Setup::Login("usr3", "usr3")];
+    for (u, d) in [("usr1", "x"), ("usr1", "y"), ("usr2", "x")] {
+        script.push(Setup::Call(u, "POST", format!("/db/{u}/{d}/add?db_type=mapped"), None));
+        script.push(Setup::Call(u, "POST", format!("/db/{u}/{d}/exec_mut"), Some(w.clone())));
+        script.push(Setup::Call(u, "POST", format!("/db/{u}/{d}/backup"), None));
+        script.push(Setup::Call(u, "POST", format!("/db/{u}/{d}/exec_mut"), Some(w.clone())));
+    }
+    script.push(Setup::Call("usr1", "PUT", "/db/usr1/y/user/usr2/add?db_role=read".to_string(), None));
+    Base::build("c26-two-owners-with-dbs", &script)
+}
+
+fn pool_names(all: &[String]) -> Vec<(String, String)> {
+    let mut v = vec![];
+    for o in ["usr1", "usr2", "usr3"] {
+        for n in all.iter().map(|s| s.as_str()).chain(["x", "y", "cp1", "rn1", "ok1"]) {
+            v.push((o.to_string(), n.to_string()));
+        }
+    }
+    v
+}
+
+const BOOKKEEPING: [&str; 4] = ["a/b/data/agdb_server.agdb", "a/b/data/.agdb_server.agdb", "a/b/data/agdb_server.log", "a/b/data/.agdb_server.log"];
+
+struct Found {
+    signature: String,
+    what: String,
+}
+
+#[derive(Default)]
+struct Stats {
+    sequences: AtomicU64,
+    requests: AtomicU64,
+    accepted: AtomicU64,
+    rejected: AtomicU64,
+    unsat_requests: AtomicU64,
+}
+
+/// Runs one sequence; returns the violations found and a transcript (status, tree diff) for reproducibility checks.
+fn run_sequence(lab: &mut Lab, base: &Base, seq: &[Step], stats: Option<&Stats>, states: Option<&DistinctCounter>, outcomes: Option<&DistinctCounter>) -> (Vec<Found>, Vec<String>) {
+    lab.reset(base);
+    let mut found = vec![];
+    let mut transcript = vec![];
+    if let Some(st) = stats {
+        st.sequences.fetch_add(1, Ordering::Relaxed);
+    }
+    let mut tree = lab.tree();
+    let mut reg: Vec<(String, String)> = lab.registered().into_iter().map(|(o, d, _)| (o, d)).collect();
+    for step in seq {
+        if !lab.alive() {
+            break;
+        }
+        let resp = lab.call(base, &step.req);
+        if resp.status == 0 {
+            transcript.push(format!("{} -> unrepresentable", step.req.short()));
+            continue;
+        }
+        let after = lab.tree();
+        let after_reg: Vec<(String, String)> = lab.registered().into_iter().map(|(o, d, _)| (o, d)).collect();
+        let (created, changed, deleted) = tree_diff(&tree, &after);
+        let touched: Vec<String> = created.iter().chain(changed.iter()).chain(deleted.iter()).filter(|p| !BOOKKEEPING.contains(&p.as_str())).cloned().collect();
+        transcript.push(format!("{} -> {} +{:?} ~{:?} -{:?} reg={:?}", step.req.short(), resp.status, created, changed.iter().filter(|p| !BOOKKEEPING.contains(&p.as_str())).collect::<Vec<_>>(), deleted, after_reg));
+        if let Some(st) = stats {
+            st.requests.fetch_add(1, Ordering::Relaxed);
+            if resp.ok() { st.accepted.fetch_add(1, Ordering::Relaxed) } else { st.rejected.fetch_add(1, Ordering::Relaxed) };
+        }
+        if let Some(s) = states {
+            s.insert(format!("{:?}|{:?}", after.keys().collect::<Vec<_>>(), after_reg).as_bytes());
+        }
+        if let Some(o) = outcomes {
+            o.insert(format!("{}|{}|{}|{}|{}", step.req.op, resp.status, created.len(), changed.len(), deleted.len()).as_bytes());
+        }
+        // name class: of the first database named in the request whose name is not "plain"
+        // (the created name first), so that later steps on a bad name keep its class
+        let mut cands: Vec<(String, String)> = step.creates.iter().cloned().collect();
+        cands.extend(step.subjects.iter().cloned());
+        let (mut cls_owner, mut cls_name) = cands[0].clone();
+        let mut class = "plain";
+        for (o, n) in &cands {
+            let others: Vec<(String, String)> = reg.iter().filter(|d| Some(*d) != step.replaces.as_ref() && !(d.0 == *o && d.1 == *n)).cloned().collect();
+            let c = name_class(o, n, &others);
+            if c != "plain" {
+                class = c;
+                cls_owner = o.clone();
+                cls_name = n.clone();
+                break;
+            }
+        }
+        let _ = &cls_owner;
+        let sig = |clause: &str| format!("c26|op={}|name={class}|clause={clause}|status={}", step.req.op, resp.status);
+        let ctx = format!("request {} (db name {:?}) answered {} {}", step.req.short(), cls_name, resp.status, engine::normalise(&resp.text()));
+
+        // (a) escape
+        let owners: BTreeSet<&str> = step.subjects.iter().map(|(o, _)| o.as_str()).collect();
+        let escaped: Vec<&String> = touched.iter().filter(|p| !owners.iter().any(|o| p.starts_with(&format!("{DATA}/{o}/")) || **p == format!("{DATA}/{o}"))).collect();
+        if !escaped.is_empty() {
+            found.push(Found { signature: sig("escape"), what: format!("{ctx}; it created/changed/deleted {escaped:?}, outside the owner's directory {DATA}/{}/", owners.iter().next().unwrap_or(&"?")) });
+        }
+        // (b) foreign files
+        let mut foreign: BTreeMap<String, String> = BTreeMap::new();
+        for (o, d) in &reg {
+            if step.subjects.iter().any(|x| x.0 == *o && x.1 == *d) {
+                continue;
+            }
+            for (k, p) in files(o, d) {
+                if let Some(p) = p {
+                    foreign.insert(p, format!("{k} file of {o}/{d}"));
+                }
+            }
+        }
+        let mut hit: Vec<String> = touched.iter().filter_map(|p| foreign.get(p).map(|w| format!("{p} ({w})"))).collect();
+        // the backups/ and audit/ directories of an owner with databases must stay directories
+        for (o, _) in &reg {
+            for r in reserved(o) {
+                if touched.contains(&r) && after.get(&r).map(|k| k != "dir").unwrap_or(false) && !hit.iter().any(|h| h.starts_with(&r)) {
+                    hit.push(format!("{r} (now a file; the directory of {o}'s databases)"));
+                }
+            }
+        }
+        if !hit.is_empty() {
+            found.push(Found { signature: sig("foreign-file"), what: format!("{ctx}; it created/changed/deleted {hit:?}, files of databases the request does not name") });
+        }
+        // (c) structural collision among registered databases
+        if after_reg != reg {
+            let mut why = vec![];
+            for (i, (o, d)) in after_reg.iter().enumerate() {
+                let f = files(o, d);
+                for (k, p) in &f {
+                    if !inside_owner(o, p) {
+                        why.push(format!("{k} file of {o}/{d:?} is outside {DATA}/{o}/"));
+                    } else if reserved(o).contains(p.as_ref().unwrap()) {
+                        why.push(format!("{k} file of {o}/{d:?} is the directory {}", p.as_ref().unwrap()));
+                    }
+                }
+                for (o2, d2) in after_reg.iter().skip(i + 1) {
+                    let g = files(o2, d2);
+                    for (k1, p1) in &f {
+                        for (k2, p2) in &g {
+                            if p1.is_some() && p1 == p2 {
+                                why.push(format!("{k1} file of {o}/{d:?} is the {k2} file of {o2}/{d2:?}"));
+                            }
+                        }
+                    }
+                }
+            }
+            if !why.is_empty() {
+                found.push(Found { signature: sig("collision"), what: format!("{ctx}; registered databases now share files or leave their directory: {why:?}") });
+            }
+        }
+        // (d) names that cannot satisfy the property must be rejected without effect
+        if let Some((o, n)) = &step.creates {
+            let already = reg.iter().any(|d| d.0 == *o && d.1 == *n);
+            let others: Vec<(String, String)> = reg.iter().filter(|d| Some(*d) != step.replaces.as_ref()).cloned().collect();
+            if !already && let Some(u) = unsatisfiable(o, n, &others) {
+                if let Some(st) = stats {
+                    st.unsat_requests.fetch_add(1, Ordering::Relaxed);
+                }
+                if resp.ok() {
+                    found.push(Found { signature: sig("not-rejected"), what: format!("{ctx}; the name cannot have a private file set inside {DATA}/{o}/ ({u}) but the request was accepted") });
+                } else if !touched.is_empty() || after_reg != reg {
+                    found.push(Found { signature: sig("reject-with-effect"), what: format!("{ctx}; the name is unusable ({u}) and the request failed, but it left changes behind: {touched:?}") });
+                }
+            }
+        }
+        tree = after;
+        reg = after_reg;
+    }
+    (found, transcript)
+}
+
+fn seq_json(base: &Base, seq: &[Step]) -> Value {
+    json!({"base": base.name, "steps": seq.iter().map(|s| s.to_json()).collect::<Vec<_>>(), "requests": reqs_to_json(&seq.iter().map(|s| s.req.clone()).collect::<Vec<_>>())})
+}
+
+pub(crate) fn run(args: &Args) -> i32 {
+    let report = Report::new(args, "model_checking");
+    let base = base_world();
+    let all_names = names();
+    let name_strings: Vec<String> = all_names.iter().map(|n| n.0.clone()).chain(pair_names_quick()).collect();
+    let pool = pool_names(&name_strings);
+
+    if let Some(path) = &args.replay {
+        let doc = crate::vh::world::replay_doc(path);
+        let steps: Vec<Step> = doc["steps"].as_array().map(|a| a.iter().map(Step::from_json).collect()).unwrap_or_default();
+        let _ = reqs_from_json(&doc["requests"]);
+        let mut lab = Lab::new("c26r", true, &pool);
+        let (found, transcript) = run_sequence(&mut lab, &base, &steps, None, None, None);
+        for t in &transcript {
+            println!("replay: {t}");
+        }
+        for f in found {
+            report.violation(&f.signature, &f.what, seq_json(&base, &steps));
+        }
+        report.set("states", json!(1));
+        report.set("transitions", json!(transcript.len().max(1)));
+        report.set("traces_validated_against_impl", json!(1));
+        report.sample(json!({"replayed": transcript}));
+        return report.finish();
+    }
+
+    let depth_b = args.tier.pick(1, 2);
+    let pairs: Vec<String> = match args.tier {
+        Tier::Quick => pair_names_quick(),
+        Tier::Thorough => {
+            let mut v: Vec<String> = all_names.iter().filter(|n| !n.1).map(|n| n.0.clone()).collect();
+            v.extend(pair_names_quick());
+            v.sort();
+            v.dedup();
+            v
+        }
+    };
+    let mut sequences: Vec<Vec<Step>> = vec![];
+    for (n, raw) in &all_names {
+        sequences.extend(group_a(n, *raw));
+        sequences.extend(group_b(n, *raw, depth_b));
+    }
+    sequences.extend(group_c(&pairs));
+    let stats = Stats::default();
+    let states = DistinctCounter::default();
+    let outcomes = DistinctCounter::default();
+    let candidates: std::sync::Mutex<Vec<(usize, Vec<Found>, Vec<String>)>> = std::sync::Mutex::new(vec![]);
+
+    let w = engine::workers();
+    let labs: Vec<std::sync::Mutex<Lab>> = (0..w).map(|_| std::sync::Mutex::new(Lab::new("c26", false, &pool))).collect();
+    engine::par_for(sequences.len(), args.seed, |wi, i| {
+        let mut lab = labs[wi].lock().unwrap();
+        let (found, transcript) = run_sequence(&mut lab, &base, &sequences[i], Some(&stats), Some(&states), Some(&outcomes));
+        if i < 3 {
+            report.sample(json!({"sequence": seq_json(&base, &sequences[i])["requests"], "transcript": transcript}));
+        }
+        if !found.is_empty() {
+            candidates.lock().unwrap().push((i, found, transcript));
+        }
+    });
+    report.set("profile", Lab::profile(&labs));
+    drop(labs);
+
+    // confirm every violating sequence twice on a freshly started server: identical transcripts required
+    let mut cands = candidates.into_inner().unwrap();
+    cands.sort_by_key(|c| c.0);
+    // one confirmation per signature is enough for the verdict; all cases are still counted
+    let mut confirmed: BTreeSet<String> = BTreeSet::new();
+    let confirm_lab = std::sync::Mutex::new(Lab::new("c26c", true, &pool));
+    let mut replays = 0u64;
+    for (i, found, transcript) in &cands {
+        let need = found.iter().any(|f| !confirmed.contains(&f.signature));
+        if need {
+            let mut lab = confirm_lab.lock().unwrap();
+            for round in 0..2 {
+                let (f2, t2) = run_sequence(&mut lab, &base, &sequences[*i], None, None, None);
+                replays += 1;
+                let sigs = |v: &Vec<Found>| v.iter().map(|f| f.signature.clone()).collect::<Vec<_>>();
+                if &t2 != transcript || sigs(&f2) != sigs(found) {
+                    engine::machinery_failure(&format!(
+                        "C26 case does not reproduce on a freshly started server (round {round}): {}\n  explored: {transcript:?}\n  replayed: {t2:?}",
+                        seq_json(&base, &sequences[*i])["requests"]
+                    ));
+                }
+            }
+            for f in found {
+                confirmed.insert(f.signature.clone());
+            }
+        }
+        for f in found {
+            report.violation(&f.signature, &f.what, seq_json(&base, &sequences[*i]));
+        }
+    }
+
+    report.set("states", json!(states.len()));
+    report.set("transitions", json!(stats.requests.load(Ordering::Relaxed)));
+    report.set("traces_validated_against_impl", json!(stats.sequences.load(Ordering::Relaxed)));
+    report.set("sequences", json!(sequences.len()));
+    report.set("names", json!(all_names.len()));
+    report.set("pair_names", json!(pairs.len()));
+    report.set("group_b_ops_after_prefix", json!(depth_b));
+    report.set("requests_accepted_2xx", json!(stats.accepted.load(Ordering::Relaxed)));
+    report.set("requests_rejected", json!(stats.rejected.load(Ordering::Relaxed)));
+    report.set("requests_with_unsatisfiable_name", json!(stats.unsat_requests.load(Ordering::Relaxed)));
+    report.set("distinct_outcomes", json!(outcomes.len()));
+    report.set("violating_sequences", json!(cands.len()));
+    report.set("confirmation_replays_on_fresh_server", json!(replays));
+    report.set("exhaustive", json!(true));
+    report.set("what", json!("every name x every creating request (group A), every name x 3 kinds x [add, exec_mut, backup] x every file operation (group B; thorough: every ordered pair of operations), every ordered pair of names added one after the other (group C); states = distinct (file tree, registered databases) after a request; transitions = requests executed"));
+    report.assume("file sets are compared after lexical normalisation of '.' and '..' (no symlinks exist in the data directory)");
+    report.assume("user names are not part of the property (database names only); the owner directories usr1/usr2 are fixed");
+    report.assume("the rollback operation's transient files backups/<db> and backups/<db>.audit exist only inside one request and are not part of the at-rest file sets");
+    report.finish()
 }
